@@ -251,12 +251,14 @@ def judgeRec (kind : String) (x : Sequence) (tail : List String) : Verdict :=
     let c2 := identical == "true"
     let got := strictRead outL
     let c3 := got == some (abs x)
-    let diffs := match y with | some y => diffFields x y | none => ["unparsed"]
-    let c4 := pst == "ok" && wrst == "same" && (match y with | some y => seqEquiv x y && codingOk x y | none => false)
-    -- the three known findings: what they predict to come back (`expectedBack`); a failure is tagged
+    let diffs := match y with | some y => diffFields (withDefaultIndex x) y | none => ["unparsed"]
+    -- `Reference.Index` is preserved when set; an unset one comes back as the position (be39eee)
+    let xd := withDefaultIndex x
+    let c4 := pst == "ok" && wrst == "same" && (match y with | some y => seqEquiv xd y && codingOk x y | none => false)
+    -- the two known findings: what they predict to come back (`expectedBack`); a failure is tagged
     -- only when the implementation returned exactly that
     let xe := expectedBack x
-    let anyKf := clsBlankRun x || clsNameless x || clsRefNumber x
+    let anyKf := clsBlankRun x || clsNameless x
     let c3K := if clsNameless x then
                  (match got with
                   | some r => r.blocks == (abs xe).blocks && r.feats == (abs xe).feats && r.origin == (abs xe).origin
@@ -265,12 +267,12 @@ def judgeRec (kind : String) (x : Sequence) (tail : List String) : Verdict :=
     let c4K := pst == "ok" && wrst == "same" && (match y with | some y => seqEquiv xe y && codingOk xe y | none => false)
     let kf := if anyKf && c2 && c3K && (!rtDom || c4K) then
         (if clsBlankRun x then " kf:C03-blank-run-at-wrap" else "") ++ (if clsNameless x then " kf:C03-nameless-locus" else "")
-          ++ (if clsRefNumber x then " kf:C03-reference-number" else "")
       else ""
     -- regression classes of the three repaired defects (evidence only; they are judged like every other case)
     let reg := (if clsLocusSearch x then "/locus-token" else "")
       ++ (if clsSubKeyword m || clsTopKeyword m then "/keyword-at-line-start" else "")
       ++ (if clsRefWrapped m then "/reference-wrapped" else "") ++ (if clsOddQuote x then "/odd-quote" else "")
+      ++ (if !wfRefIndex 0 x.metadata.references then "/own-reference-number" else "")
     let wraps := (headerLines m).any isCont
     let cached := x.features.any fun f => f.gbkLocationString != []
     let structural := x.features.any fun f => f.gbkLocationString == []
